@@ -351,10 +351,35 @@ def translate() -> tuple[str, dict]:
         rets = [s for s in ast.walk(fname_prop[0]) if isinstance(s, ast.Return)]
         filename_is_join = len(rets) == 1 and rets[0].value is not None and \
             ast.unparse(rets[0].value) in ('_join_file_parts(self.dir, self._filename, self.ext)',)
+    # census: every method that takes a file name resolves it with _get_file_parts(<its name parameter>[, root]) and uses the parameter for
+    # nothing else (error messages aside); add_file hands its name to new_file unchanged
+    vpk = find_def(tree.body, ast.ClassDef, 'VPK')
+    name_sites = {}
+    for meth in ('__getitem__', '__delitem__', '__contains__', 'new_file'):
+        fn = find_def(vpk.body, ast.FunctionDef, meth)
+        params = [a.arg for a in fn.args.posonlyargs + fn.args.args]
+        ok = len(params) >= 2
+        if ok:
+            nm = params[1]
+            calls = [n for n in ast.walk(fn) if isinstance(n, ast.Call) and isinstance(n.func, ast.Name) and n.func.id == '_get_file_parts']
+            ok = len(calls) == 1 and not calls[0].keywords and 1 <= len(calls[0].args) <= 2 and isinstance(calls[0].args[0], ast.Name) and calls[0].args[0].id == nm \
+                and (len(calls[0].args) == 1 or (isinstance(calls[0].args[1], ast.Name) and calls[0].args[1].id in params))
+            # other loads of the parameter only inside raise statements (messages)
+            in_raise = {id(x) for r in ast.walk(fn) if isinstance(r, ast.Raise) for x in ast.walk(r)}
+            in_call = {id(x) for c in calls for x in ast.walk(c)}
+            for n in ast.walk(fn):
+                if isinstance(n, ast.Name) and n.id == nm and isinstance(n.ctx, ast.Load) and id(n) not in in_raise and id(n) not in in_call:
+                    ok = False
+        name_sites[meth] = ok
+    addf = find_def(vpk.body, ast.FunctionDef, 'add_file')
+    ap = [a.arg for a in addf.args.posonlyargs + addf.args.args]
+    nf = [n for n in ast.walk(addf) if isinstance(n, ast.Call) and isinstance(n.func, ast.Attribute) and n.func.attr == 'new_file' and ast.unparse(n.func.value) == 'self']
+    name_sites['add_file'] = len(ap) >= 2 and len(nf) == 1 and len(nf[0].args) >= 1 and isinstance(nf[0].args[0], ast.Name) and nf[0].args[0].id == ap[1] and \
+        sum(1 for n in ast.walk(addf) if isinstance(n, ast.Name) and n.id == ap[1] and isinstance(n.ctx, ast.Load)) == 1
     b = lambda x: 'true' if x else 'false'
     trip = lambda t: '(' + ', '.join(_src(x) for x in t) + ')'
     side = {'join_rows': [[pe, ne, ee, [p if isinstance(p, str) else p[1] for p in out]] for pe, ne, ee, out in rows], 'parts': pd,
-            'filename_is_join': filename_is_join, 'digests': {'_join_file_parts': ast_digest(jfn), '_get_file_parts': ast_digest(gfn)}}
+            'filename_is_join': filename_is_join, 'name_sites': name_sites, 'digests': {'_join_file_parts': ast_digest(jfn), '_get_file_parts': ast_digest(gfn)}}
     text = '\n'.join([
         '(* GENERATED by translate/c13_names.py from /repo/src/srctools/vpk.py. Do not edit. *)',
         'From Coq Require Import List NArith Bool.', 'From SV Require Import Fmt.VpkDir SM.Vpk Fmt.VpkName Fmt.VpkNameSplit Fmt.VpkNameJoin.',
@@ -366,6 +391,8 @@ def translate() -> tuple[str, dict]:
         f'  mkGParts {trip(pd["forms"]["str"])} {trip(pd["forms"]["2"])} {trip(pd["forms"]["3"])} {b(pd["split"])}',
         '           [' + '; '.join(pd['chain']) + f'] {b(pd["ret_ok"])}.',
         f'Definition g_fileinfo_filename_is_join : bool := {b(filename_is_join)}.',
+        '(* __getitem__, __delitem__, __contains__, new_file resolve their name argument with _get_file_parts and use it for nothing else; add_file passes it to new_file *)',
+        f'Definition g_names_resolved_by_get_file_parts : bool := {b(all(name_sites.values()))}.',
         '',
     ])
     return text, side
